@@ -100,6 +100,9 @@ fn plan(prop: &str, o: &mut Out) {
             g_nonascii_chars(o, &["b32", "dyn", "big"]);
             g_long_valid(o, &all);
             g_swallow_invalid(o, &all);
+            // `D` is one or more digits: exponent texts of every length (BigBitstring must accept them all, the bounded types
+            // may refuse them for their value only)
+            g_exp_texts(o, &["b32", "big"]);
         }
         "C07" => {
             g_exp_texts(o, &["dyn", "big"]);
